@@ -99,7 +99,7 @@ def handle : Handler := fun op args =>
               | .error x, .error y => if x = y then "tl1" else "tl0"
               | _, _ => "tl0")
           | .error _ => "tl0"
-        match importTable bytes us nh with
+        match importTable2 bytes us nh with
         | .ok r => "ok " ++ encHex bytes ++ " " ++ toString (countLines bytes) ++ " " ++ glue ++ " " ++ tl ++ " " ++ showTable r
         | .error .diag => "ok " ++ encHex bytes ++ " " ++ toString (countLines bytes) ++ " " ++ glue ++ " " ++ tl ++ " err"
         | .error .undef => "ok " ++ encHex bytes ++ " " ++ toString (countLines bytes) ++ " " ++ glue ++ " " ++ tl ++ " undef"
@@ -132,7 +132,7 @@ def handle : Handler := fun op args =>
       | .error .undef => "undef"
       | .ok bytes =>
         "ok " ++ encHex bytes ++ " " ++ toString (countLines bytes) ++ " " ++
-          (match importTable bytes us nh with
+          (match importTable2 bytes us nh with
            | .ok r => showTable r
            | .error .diag => "err"
            | .error .undef => "undef")
@@ -142,22 +142,22 @@ def handle : Handler := fun op args =>
   | "c20.implist" => withArgs (do let b ← pBytes; let u ← pRat; let k ← pNat; pure (b, u, k)) args fun (b, u, k) =>
       outE (importList b u k) showList
   | "c20.imptable" => withArgs (do let b ← pBytes; let us ← pRats; let k ← pNat; pure (b, us, k)) args fun (b, us, k) =>
-      outE (importTable b us k) showTable
+      outE (importTable2 b us k) showTable
   -- Import_Table with the repair proposed for audit item P10 (pending in /repo): exact fill or diagnostic, trailing blank lines ignored
   | "c20.imptable2" => withArgs (do let b ← pBytes; let us ← pRats; let k ← pNat; pure (b, us, k)) args fun (b, us, k) =>
       outE (importTable2 b us k) showTable
   | "c20.inunits" => withArgs (do let x ← pRat; let u ← pRat; let r ← pBool; let d ← pNat; pure (x, u, r, d)) args fun (x, u, r, d) =>
-      if u = 0 ∨ (r ∧ d = 0) then "undef" else outR (inUnits x u r d) showRat
+      if u = 0 then "undef" else outR (inUnits x u r d) showRat
   | "c20.inunitsL" => withArgs (do let x ← pRats; let u ← pRat; let r ← pBool; let d ← pNat; pure (x, u, r, d)) args fun (x, u, r, d) =>
-      if u = 0 ∨ (r ∧ d = 0) then "undef" else outR (inUnitsList x u r d) showList
+      if u = 0 then "undef" else outR (inUnitsList x u r d) showList
   | "c20.inunitsV" => withArgs (do let x ← pRats; let u ← pRat; let r ← pBool; let d ← pNat; pure (x, u, r, d)) args fun (x, u, r, d) =>
-      if u = 0 ∨ (r ∧ d = 0) then "undef" else outR (inUnitsList x u r d) showList
+      if u = 0 then "undef" else outR (inUnitsList x u r d) showList
   | "c20.inunitsT" => withArgs (do let x ← pTable; let u ← pRat; let r ← pBool; let d ← pNat; pure (x, u, r, d)) args fun (x, u, r, d) =>
-      if u = 0 ∨ (r ∧ d = 0) then "undef" else outR (inUnitsTable x u r d) showTable
+      if u = 0 then "undef" else outR (inUnitsTable x u r d) showTable
   | "c20.inunitsM" => withArgs (do let x ← pTable; let u ← pRat; let r ← pBool; let d ← pNat; pure (x, u, r, d)) args fun (x, u, r, d) =>
-      if u = 0 ∨ (r ∧ d = 0) then "undef" else outR (inUnitsTable x u r d) showTable
+      if u = 0 then "undef" else outR (inUnitsTable x u r d) showTable
   | "c20.inunitsC" => withArgs (do let x ← pTable; let us ← pRats; let r ← pBool; let d ← pNat; pure (x, us, r, d)) args fun (x, us, r, d) =>
-      if us.any (· = 0) ∨ (r ∧ d = 0) then "undef" else outR (inUnitsCols x us r d) showTable
+      if us.any (· = 0) then "undef" else outR (inUnitsCols x us r d) showTable
   | "c20.unit" => withArgs tok args fun n =>
       if (unitDefs.map (·.1)).contains n then
         "ok " ++ (if isStatic unitDefs n then "static" else "dynamic") ++ " " ++ (valueS unitDefs n).show
